@@ -142,6 +142,58 @@ def translate(pat: "re.Pattern[str]") -> tuple[Any, bool, bool]:
     return _seq(tree, bool(flags & re.DOTALL)), a_start, a_end
 
 
+def match_lang_tail(pat: "re.Pattern[str]") -> Any:
+    """
+    Like match_lang, for patterns whose last item is an alternation in which `$` appears as a whole alternative
+    (pathspec's gitignore regexes end in `(?:(?P<ps_d>/)|$)`): language of s with pat.match(s) truthy =
+    body . ( alt . anything  |  empty )   for the non-`$` / `$` alternatives of the tail.
+    """
+    flags = pat.flags
+    tree = list(P.parse(pat.pattern, flags & ~re.UNICODE))
+    dotall = bool(flags & re.DOTALL)
+    any_ = z3.Star(ANY_CHAR)
+    eps = z3.Re(z3.StringVal(""))
+    if tree and tree[0][0] is C.AT and str(tree[0][1]) in ("AT_BEGINNING", "AT_BEGINNING_STRING"):
+        tree = tree[1:]
+        lead: Any = None
+    else:
+        lead = any_  # pattern.search(): the match may start anywhere
+    tail = tree[-1] if tree else None
+
+    def unwrap(node: Any) -> Any:
+        op, av = node
+        while op is C.SUBPATTERN and len(av[3]) == 1:
+            op, av = av[3][0]
+        return op, av
+
+    if tail is not None:
+        op, av = unwrap(tail)
+        if op is C.BRANCH:
+            alts = av[1]
+            parts = []
+            ok = True
+            for a in alts:
+                a = list(a)
+                if len(a) == 1 and a[0][0] is C.AT and str(a[0][1]) in ("AT_END", "AT_END_STRING"):
+                    parts.append(eps)
+                elif any(x[0] is C.AT for x in a):
+                    ok = False
+                else:
+                    parts.append(z3.Concat(_seq(a, dotall), any_))
+            if ok:
+                body = _seq(tree[:-1], dotall)
+                r = z3.Concat(body, z3.Union(*parts)) if len(parts) > 1 else z3.Concat(body, parts[0])
+                return z3.Concat(lead, r) if lead is not None else r
+        if op is C.AT and str(av) in ("AT_END", "AT_END_STRING"):
+            r = _seq(tree[:-1], dotall)
+            return z3.Concat(lead, r) if lead is not None else r
+    for op, av in tree:
+        if op is C.AT:
+            raise TranslationRefused("anchor inside the pattern")
+    r = z3.Concat(_seq(tree, dotall), any_)
+    return z3.Concat(lead, r) if lead is not None else r
+
+
 def match_lang(pat: "re.Pattern[str]") -> Any:
     """Language of strings s for which pat.match(s) is truthy (`$` also matches before one trailing newline)."""
     body, _a_start, a_end = translate(pat)
